@@ -74,6 +74,17 @@ static int op_mul(int c, tok_t *a, out_t *o) { return do3(mpz_mul, c, a, o); }
 static int op_tdiv_q(int c, tok_t *a, out_t *o) { return do3g(mpz_tdiv_q, c, a, o); }
 static int op_tdiv_r(int c, tok_t *a, out_t *o) { return do3g(mpz_tdiv_r, c, a, o); }
 
+/* mpz_sqrt (w, u): mode wa wv ua uv; mode 0 or 1; a negative operand raises SQRT_OF_NEGATIVE */
+static int op_sqrt(int argc, tok_t *a, out_t *o) {
+  NEED(argc == 5); long m = mode_of(&a[0]); NEED(m == 0 || m == 1);
+  mpz_t w, u; int e;
+  NEED(mk(w, &a[1], &a[2]) == 0);
+  if (mk(u, &a[3], &a[4])) { mpz_clear(w); return -1; }
+  if (m == 0) { e = GUARD(mpz_sqrt(w, u)); if (e) out_err(o, "sqrtneg"); else outw(o, w); }
+  else { e = GUARD(mpz_sqrt(u, u)); if (e) out_err(o, "sqrtneg"); else outw(o, u); }
+  mpz_clear(w); mpz_clear(u); return 0;
+}
+
 /* as4_mpf_urandomb seed prec_bits nbits: Mersenne Twister seeded with `seed`, destination of mpf_init2 (prec_bits) (a block of exactly
    PREC + 1 limbs from the recording allocator: a store past it damages the red zone); output PREC + 1, SIZ, EXP, the limbs */
 static int op_mpf_urandomb(int argc, tok_t *a, out_t *o) {
@@ -88,6 +99,6 @@ static int op_mpf_urandomb(int argc, tok_t *a, out_t *o) {
 
 const opdef_t ops_allocsafe4[] = {
   {"as4_addmul_ui", op_addmul_ui}, {"as4_submul_ui", op_submul_ui},
-  {"as4_addmul", op_addmul}, {"as4_submul", op_submul}, {"as4_mul", op_mul}, {"as4_mpf_urandomb", op_mpf_urandomb}, {"as4_tdiv_q", op_tdiv_q}, {"as4_tdiv_r", op_tdiv_r},
+  {"as4_addmul", op_addmul}, {"as4_submul", op_submul}, {"as4_mul", op_mul}, {"as4_mpf_urandomb", op_mpf_urandomb}, {"as4_sqrt", op_sqrt}, {"as4_tdiv_q", op_tdiv_q}, {"as4_tdiv_r", op_tdiv_r},
   {0, 0}
 };
